@@ -90,3 +90,26 @@ Proof.
   apply in_seq. lia.
 Qed.
 
+
+(* outside the table fold_t is the identity *)
+Lemma fold_t_outside x : ~ In x dom_t -> fold_t x = x.
+Proof.
+  intros Hn. unfold fold_t. destruct (x <? 0) eqn:E; [reflexivity|].
+  destruct (PositiveMap.find (tkey x) fold_map) as [p|] eqn:Ef; [|reflexivity]. exfalso. apply Hn.
+  unfold fold_map, dom_t in *.
+  assert (G : forall l m, PositiveMap.find (tkey x) (fold_left (fun m p => PositiveMap.add (tkey (fst p)) (snd p) m) l m) = Some p ->
+                          PositiveMap.find (tkey x) m = Some p \/ In x (map fst l)).
+  { induction l as [|[k v] l IH]; intros m H; [left; exact H|]. cbn [fold_left fst snd] in H.
+    destruct (IH _ H) as [H1|H1]; [|right; right; exact H1].
+    destruct (Pos.eq_dec (tkey x) (tkey k)) as [Ek|Ek].
+    - right. left. cbn [fst]. unfold tkey in Ek.
+      destruct (k <? -1) eqn:E2.
+      + (* keys below -1 collapse to key 1, which a non-negative rune never has *)
+        assert (Z.to_pos (k + 2) = 1%positive) by (destruct (k + 2) eqn:E3; try reflexivity; lia).
+        assert (Z.pos (Z.to_pos (x + 2)) = x + 2) by (apply Z2Pos.id; lia). lia.
+      + assert (Z.pos (Z.to_pos (x + 2)) = x + 2) by (apply Z2Pos.id; lia).
+        assert (Z.pos (Z.to_pos (k + 2)) = k + 2) by (apply Z2Pos.id; lia). lia.
+    - left. rewrite PositiveMap.gso in H1 by exact Ek. exact H1. }
+  destruct (G _ _ Ef) as [H|H]; [rewrite PositiveMap.gempty in H; discriminate|exact H].
+Qed.
+
